@@ -237,6 +237,7 @@ func TestC12(t *testing.T) {
 	haveClib := clibkdf.Available()
 	if haveClib {
 		c.Oracle("cgo: " + clibkdf.Describe())
+		c.Assumption("nettle arctwo is not consulted for RC2 effective key bits 1017..1023 (nettle substitutes S[0] twice there, RFC 2268 once); ref.RC2 alone decides those")
 	} else {
 		c.Assumption("C libraries (nettle/libgcrypt) not linked: CAST5 is decided by inversion + the RFC 2144 B.1 vector and B.2 full maintenance test only; Blowfish/Twofish/RC2 by the spec-derived references alone")
 	}
